@@ -133,8 +133,17 @@ fn fields_src(r: &Record, named: bool, vis: &str) -> String {
     r.fields
         .iter()
         .map(|f| {
+            // other attributes around #[transient(..)], as lint switches and documentation are in real code
             let tr = match &f.transient {
-                Some(d) => format!("#[transient({})] ", rust_val(&f.ty, d)),
+                Some(d) => {
+                    let t = format!("#[transient({})] ", rust_val(&f.ty, d));
+                    match crate::fnv64(f.name.as_bytes()) % 4 {
+                        1 => format!("{t}#[allow(dead_code)] "),
+                        2 => format!("{t}#[doc = \"kept in memory only\"] "),
+                        3 => format!("#[doc = \"kept in memory only\"] {t}"),
+                        _ => t,
+                    }
+                }
                 None => String::new(),
             };
             if named {
